@@ -59,10 +59,18 @@ fn longj(out: &mut impl Write, pc: u64, target: u64) {
 }
 
 fn a32(out: &mut impl Write, base: usize, src: u32, target: u32) {
+    a32_with(out, base, src, target, None)
+}
+
+/// `first`: the first four bytes found at the entry (what the function's own first instruction is)
+fn a32_with(out: &mut impl Write, base: usize, src: u32, target: u32, first: Option<[u8; 4]>) {
     // src may carry the Thumb bit; the 16 bytes around the written range get known content
     let addr = (src & !1) as usize;
     let _ = base;
-    let orig: Vec<u8> = (0..20u8).map(|i| 0x50 + i).collect();
+    let mut orig: Vec<u8> = (0..20u8).map(|i| 0x50 + i).collect();
+    if let Some(f) = first {
+        orig[4..8].copy_from_slice(&f);
+    }
     unsafe { arena::write(addr - 4, &orig) };
     let r = quiet_catch(move || unsafe {
         let g = arm::verif_replace(src as usize, target as usize);
@@ -192,6 +200,16 @@ pub fn run(a: &Args, out: &mut impl Write) {
             }
         }
     }
+    // distances at which a narrower integer wraps: k * 2^j + delta (j = 28..47), both sides
+    for j in 28..48u32 {
+        for k in [1i64, 2, 3] {
+            for delta in [-lim, -4, 0, 4, 4096, lim - 4] {
+                let d = k.wrapping_mul(1i64 << j).wrapping_add(delta);
+                entry(out, funcs[0], (funcs[0] as i64).wrapping_add(d) as u64);
+                entry(out, funcs[0], (funcs[0] as i64).wrapping_sub(d) as u64);
+            }
+        }
+    }
     let band = if a.tier_thorough { 1 << 16 } else { 1 << 9 };
     for k in 0..band {
         // word-aligned displacements in a band across +-128 MiB
@@ -256,6 +274,26 @@ pub fn run(a: &Args, out: &mut impl Write) {
         let thumb = r.chance(2, 3);
         let off = if thumb { off } else { off & !3 };
         a32_refake(out, (b32 + off) as u32 | thumb as u32, r.next() as u32, r.next() as u32);
+    }
+    // what the function itself begins with: every value of the top seven bits of the first halfword and
+    // of the first word (where instruction classes are decided), in both states; and the constants
+    // written in the source as first halfword / first word
+    for k in 0..128u32 {
+        let h = ((k << 9) | (r.next() as u32 & 0x1ff)) as u16;
+        let w = (k << 25) | (r.next() as u32 & 0x01ff_ffff);
+        for (src, t) in [((b_lo + 32) as u32, 0x0002_4001u32), ((b_lo + 32) as u32 | 1, 0x0002_4000), ((b_lo + 34) as u32 | 1, 0x8123_4561)] {
+            let hb = h.to_le_bytes();
+            a32_with(out, b_lo, src, t, Some([hb[0], hb[1], 0x77, 0x66]));
+            a32_with(out, b_lo, src, t, Some(w.to_le_bytes()));
+        }
+    }
+    for &l in &literal_pool() {
+        if l <= 0xffff_ffff {
+            let w = (l as u32).to_le_bytes();
+            a32_with(out, b_lo, (b_lo + 32) as u32, 0x0002_4001, Some(w));
+            a32_with(out, b_lo, (b_lo + 32) as u32 | 1, 0x0002_4000, Some(w));
+            a32_with(out, b_lo, (b_lo + 32) as u32, 0x0002_4001, Some([0x11, 0x22, w[0], w[1]]));
+        }
     }
     for &l in &literal_pool() {
         for d in [0u32, 1, u32::MAX] {
